@@ -4,7 +4,7 @@ set -u
 PID=$1; TAG=${2:-$1}; WT=/tmp/wt/$PID; OUT=/verif/seeded/$TAG
 mkdir -p $OUT
 git -C $WT diff -- inference > $OUT/patch.diff
-BASE=${PID%b}; cp $WT/demo_$BASE.py $OUT/demo.py 2>/dev/null || { echo "no demo"; exit 1; }
+BASE=$(echo $PID | sed "s/[a-z]$//"); cp $WT/demo_$BASE.py $OUT/demo.py 2>/dev/null || { echo "no demo"; exit 1; }
 echo "== patch: $(grep -c '^[+-][^+-]' $OUT/patch.diff) changed lines"
 # 1. tests pass with the change
 ( cd $WT && PYTHONPATH=$WT /venv/bin/python -m pytest -q -p no:cacheprovider -n 8 tests 2>&1 | tail -1 ) > $OUT/.tests.txt
